@@ -182,6 +182,16 @@ def h_taper_structure(env, molkey, mapping, utd):
         ev_tap = np.linalg.eigvalsh(get_sparse_operator(Ht, n_qubits=n - k).toarray()) if n - k > 0 else np.array([Ht.terms.get((), 0.0).real])
         worst = max(min(abs(e - f) for f in ev_full) for e in ev_tap)
         env.check_true(worst < 1e-8, "every eigenvalue of the tapered operator is an eigenvalue of the original (numerical, 1e-8)", detail=str(worst))
+        # the operator handed out is the user's to post-process: doing so in place must not change what the tapering object
+        # returns the next time (its eigenvalues would no longer be those of the original Hamiltonian)
+        snap = dict(Ht.terms)
+        Ht *= 1000.
+        Ht -= 1.
+        again = tap.z2_tapered_op.qubitoperator
+        keys = sorted(set(snap) | set(again.terms), key=str)
+        dev = max([abs(complex(again.terms.get(k_, 0)) - complex(snap.get(k_, 0))) for k_ in keys] or [0.])
+        env.check_true(dev < 1e-12, "z2_tapered_op.qubitoperator read again after in-place post-processing of the first result is the same operator",
+                       detail=f"max coefficient change {dev}")
 
 
 def h_trim(env, layout, words, canary=False):
